@@ -4,6 +4,7 @@ import (
 	"fmt"
 	"go/ast"
 	"go/token"
+	"sort"
 	"strings"
 )
 
@@ -384,17 +385,25 @@ func genWalk() string {
 	// optional leading guard `if *node == nil { return }`: a nil slot is not entered
 	nilGuard := false
 	body := fd.Body.List
-	if len(body) == 3 {
-		if is, ok := body[0].(*ast.IfStmt); ok && is.Init == nil && is.Else == nil && norm(is.Cond) == "*node == nil" &&
-			len(is.Body.List) == 1 && norm(is.Body.List[0]) == "return" {
-			nilGuard = true
-			body = body[1:]
-		} else {
-			refuse(body[0].Pos(), "walker.walk: leading statement is not `if *node == nil { return }`: %s", norm(body[0]))
+	if len(body) >= 1 {
+		if is, ok := body[0].(*ast.IfStmt); ok {
+			if is.Init == nil && is.Else == nil && norm(is.Cond) == "*node == nil" &&
+				len(is.Body.List) == 1 && norm(is.Body.List[0]) == "return" {
+				nilGuard = true
+				body = body[1:]
+			} else {
+				refuse(body[0].Pos(), "walker.walk: leading statement is not `if *node == nil { return }`: %s", norm(body[0]))
+			}
 		}
 	}
+	// `Exit` either ends every case or is called once after the switch (the default case panics before it)
+	exitAfter := false
+	if len(body) == 3 && norm(body[2]) == "w.visitor.Exit(node)" {
+		exitAfter = true
+		body = body[:2]
+	}
 	if len(body) != 2 {
-		refuse(fd.Pos(), "walker.walk: body is not `[nil guard;] Enter; type switch` (%d statements)", len(fd.Body.List))
+		refuse(fd.Pos(), "walker.walk: body is not `[nil guard;] Enter; type switch[; Exit]` (%d statements)", len(fd.Body.List))
 	}
 	fmt.Fprintf(&sb, "/-- walker.walk starts with `if *node == nil { return }` -/\ndef walkNilGuard : Bool := %v\n", nilGuard)
 	first := norm(body[0])
@@ -424,49 +433,63 @@ func genWalk() string {
 			}
 			refuse(c.Pos(), "walker.walk: default case is not a panic")
 		}
-		if len(c.List) != 1 {
-			refuse(c.Pos(), "walker.walk: case with %d types", len(c.List))
-		}
-		t := exprStr(c.List[0])
-		k := strings.TrimPrefix(t, "*")
-		if !strings.HasPrefix(t, "*") || !isNodeKind(k) {
-			refuse(c.Pos(), "walker.walk: case type %s is not a node struct known to the model", t)
-		}
-		if seen[k] {
-			refuse(c.Pos(), "walker.walk: duplicate case %s", k)
-		}
-		seen[k] = true
-		if len(c.Body) == 0 {
-			refuse(c.Pos(), "walker.walk: case %s is empty (Exit is not called)", k)
-		}
-		last := norm(c.Body[len(c.Body)-1])
-		if last != "w.visitor.Exit(node)" {
-			refuse(c.Body[len(c.Body)-1].Pos(), "walker.walk: case %s ends with %s, not with w.visitor.Exit(node)", k, last)
-		}
-		lasts = append(lasts, last)
-		var slots []string
-		for _, st := range c.Body[:len(c.Body)-1] {
-			fl, kind, ok := walkTarget(st, v)
-			if !ok {
-				refuse(st.Pos(), "walker.walk: case %s: statement shape not recognised: %s", k, norm(st))
-			}
-			// the Go type checker's view: the target must be a field of this struct of the right shape
-			var decl *nodeField
-			for i := range fields[k] {
-				if fields[k][i].name == fl {
-					decl = &fields[k][i]
+		caseBody := c.Body
+		if exitAfter {
+			for _, st := range caseBody {
+				if norm(st) == "w.visitor.Exit(node)" {
+					refuse(st.Pos(), "walker.walk: Exit is called in a case and again after the switch")
 				}
 			}
-			if decl == nil {
-				refuse(st.Pos(), "walker.walk: case %s walks %s, which is not a Node/[]Node field of the struct", k, fl)
+		} else {
+			if len(caseBody) == 0 {
+				refuse(c.Pos(), "walker.walk: case %s is empty (Exit is not called)", exprStr(c.List[0]))
 			}
-			if decl.isList != (kind == ".list") {
-				refuse(st.Pos(), "walker.walk: case %s walks %s as %s but the field is declared %v", k, fl, kind, *decl)
+			last := norm(caseBody[len(caseBody)-1])
+			if last != "w.visitor.Exit(node)" {
+				refuse(caseBody[len(caseBody)-1].Pos(), "walker.walk: case %s ends with %s, not with w.visitor.Exit(node)", exprStr(c.List[0]), last)
 			}
-			slots = append(slots, fmt.Sprintf("⟨%s, %s⟩", leanField(st.Pos(), fl), kind))
+			caseBody = caseBody[:len(caseBody)-1]
 		}
-		rows = append(rows, fmt.Sprintf("  (.%s, [%s])", k, strings.Join(slots, ", ")))
+		if len(c.List) > 1 && len(caseBody) != 0 {
+			refuse(c.Pos(), "walker.walk: a case with %d types walks children", len(c.List))
+		}
+		for _, ct := range c.List {
+			t := exprStr(ct)
+			k := strings.TrimPrefix(t, "*")
+			if !strings.HasPrefix(t, "*") || !isNodeKind(k) {
+				refuse(c.Pos(), "walker.walk: case type %s is not a node struct known to the model", t)
+			}
+			if seen[k] {
+				refuse(c.Pos(), "walker.walk: duplicate case %s", k)
+			}
+			seen[k] = true
+			lasts = append(lasts, "w.visitor.Exit(node)")
+			var slots []string
+			for _, st := range caseBody {
+				fl, kind, ok := walkTarget(st, v)
+				if !ok {
+					refuse(st.Pos(), "walker.walk: case %s: statement shape not recognised: %s", k, norm(st))
+				}
+				// the Go type checker's view: the target must be a field of this struct of the right shape
+				var decl *nodeField
+				for i := range fields[k] {
+					if fields[k][i].name == fl {
+						decl = &fields[k][i]
+					}
+				}
+				if decl == nil {
+					refuse(st.Pos(), "walker.walk: case %s walks %s, which is not a Node/[]Node field of the struct", k, fl)
+				}
+				if decl.isList != (kind == ".list") {
+					refuse(st.Pos(), "walker.walk: case %s walks %s as %s but the field is declared %v", k, fl, kind, *decl)
+				}
+				slots = append(slots, fmt.Sprintf("⟨%s, %s⟩", leanField(st.Pos(), fl), kind))
+			}
+			rows = append(rows, fmt.Sprintf("  (.%s, [%s])", k, strings.Join(slots, ", ")))
+		}
 	}
+	// rows in the order of the node kinds (the order of the cases in the source is immaterial)
+	sort.SliceStable(rows, func(i, j int) bool { return walkRowRank(rows[i]) < walkRowRank(rows[j]) })
 	if !defaultPanics {
 		refuse(sw.Pos(), "walker.walk: no panicking default case")
 	}
@@ -574,4 +597,14 @@ func genWalk() string {
 func init() {
 	register("AstShape", genAstShape)
 	register("Walk", genWalk)
+}
+
+// walkRowRank: position of the row's node kind ("  (.XNode, [...])") in nodeKinds.
+func walkRowRank(row string) int {
+	for i, k := range nodeKinds {
+		if strings.HasPrefix(row, "  (."+k+",") {
+			return i
+		}
+	}
+	return len(nodeKinds)
 }
